@@ -585,6 +585,15 @@ func (f *FuncCFG) evalCond(e ast.Expr, assume map[string]bool) (bool, bool) {
 				return val, true
 			}
 		}
+	case *ast.CallExpr:
+		// a predicate call (`s.stateSync.NeedBlocks()`) whose resolved callee is assumed
+		if len(x.Args) == 0 {
+			if cs := f.calleeSym(x); cs != "" {
+				if val, ok := assume[cs]; ok {
+					return val, true
+				}
+			}
+		}
 	}
 	return false, false
 }
